@@ -336,6 +336,30 @@ where
             }
         }
     }
+    // two iterators in succession on one reader: the first takes k items and is dropped; the second continues with
+    // item k (or starts over with item 0) and runs to the end
+    if n >= 2 {
+        let k = (n / 2).max(1);
+        let mut r = op("two iterators")?;
+        {
+            let mut it = r.iter_shapes();
+            for i in 0..k {
+                let item = it.next();
+                check("first of two iterators", i, item)?;
+            }
+        }
+        let mut it = r.iter_shapes();
+        let first = it.next();
+        let start = match &first {
+            Some(Ok(s)) if same(&expect[k], &view_shape(s)).is_ok() => k,
+            _ => 0,
+        };
+        check(&format!("second of two iterators (the first took {} items)", k), start, first)?;
+        for i in start + 1..n + 1 {
+            let item = it.next();
+            check(&format!("second of two iterators (the first took {} items)", k), i, item)?;
+        }
+    }
     // count and last
     {
         let mut r = op("count")?;
@@ -354,4 +378,21 @@ where
         }
     }
     Ok(())
+}
+
+
+/// A .dbf with one numeric field `idx` and rows 0..n.
+pub fn dbf_with_rows(n: usize) -> Vec<u8> {
+    use shapefile::dbase;
+    use std::convert::TryInto;
+    let mut dbf = Cursor::new(Vec::new());
+    {
+        let mut tw = dbase::TableWriterBuilder::new().add_numeric_field("idx".try_into().unwrap(), 10, 0).build_with_dest(&mut dbf);
+        for i in 0..n {
+            let mut rec = dbase::Record::default();
+            rec.insert("idx".to_string(), dbase::FieldValue::Numeric(Some(i as f64)));
+            tw.write_record(&rec).expect("dbf row");
+        }
+    }
+    dbf.into_inner()
 }
